@@ -240,6 +240,7 @@ def run(ctx):
   # tensor more than once (consumer entries are per operand, the producer's consumer list is per operator) - defect F13 (C03.R4)
   from sa.rules import c03, c10, c19  # pylint: disable=g-import-not-at-top
   c10.r8_calibrate_then_plan(ctx, 'C08.R7')
+  shared.rule_operator_sweep(ctx, 'C08.R9')
   shared.rule_pipeline_simulation(ctx, 'C08.R8', 'whole pipeline on label models (static, dynamic, weight-only rule lists; unknown operators around): no stage raises')
   c19._relabel(ctx, 'C03.R4', 'C08.R6', 'the vertical-optimisation step is total: no producer/consumer combination, with any operand multiplicity, raises (C03.R4)', c03.r4_vertical_table)
 
